@@ -20,6 +20,10 @@ def features(shape, depth=0, acc=None):
             acc.add("through")
         if step is not None:
             acc.add("step")
+        if step in ("var", "expr", "call"):
+            acc.add("step-" + step)
+        if b == ("e", "e"):
+            acc.add("bounds-expr")
     if k == "fault":
         acc.add("fault-" + shape[1])
     for i in cfgen.children_idx(shape):
@@ -90,6 +94,18 @@ def L1(depth, variants=("fn",)):
                     if v == "module" and cfgen.has_kind(d, ("return",)):
                         continue
                     yield (v, d)
+
+
+def L1_loops():
+    """single deviations of every depth-<=2 shape that has a from-loop with a break or continue somewhere"""
+    seen = set()
+    for s in cfgen.shapes(2):
+        if not (cfgen.has_kind(s, ("from",)) and cfgen.has_kind(s, ("break", "continue"))):
+            continue
+        for d in cfgen.deviations(s):
+            if d not in seen:
+                seen.add(d)
+                yield ("fn", d)
 
 
 def L2(n):
@@ -188,7 +204,7 @@ class C01(Check):
     def finish(self, stats, tier):
         errs = []
         for t in ["break", "continue", "return", "fault-div", "fault-assert" if tier == "thorough" else "fault-div", "elif",
-                  "while", "from", "collide@nested", "collide@top", "anon@nested", "step", "through", "module", "rec"]:
+                  "while", "from", "collide@nested", "collide@top", "anon@nested", "step", "step-expr", "step-call", "bounds-expr", "through", "module", "rec"]:
             if not stats["tags"].get(t):
                 errs.append(f"vacuity: construct {t} never explored")
         ok = stats["evaluations"] - stats["outcomes"].get("skipped-step-limit", 0)
